@@ -214,6 +214,7 @@ func (iloc *itemLoc) read(c *Collection, withValue bool) (icur *Item, err error)
 				return nil, err
 			}
 		}
+		verifYield(17) // VerifSiteItemCAS
 		if !iloc.casItem(icur, i) {
 			c.store.ItemDecRef(c, i)
 			return iloc.read(c, withValue)
